@@ -117,10 +117,11 @@ def sample_from_pattern(regex, p, rng):
 def gen_custom(rng, k):
     """Returns (text, labels): a TSV text and a pool of labels aimed at its rows."""
     rows, labels = [], ["", "x", "a/b", "w1/y z", "zz/", "/q", "é/x", "nothing:here"]
+    collide = []  # (regular label, the taxon it translates to, prefixes of that taxon)
     n = rng.randint(0, 7)
     for i in range(n):
         kind = rng.choice(["lit", "lit", "litdot", "grp", "swap", "named", "alt", "galt", "null", "backref",
-                           "overlap", "suffix", "multi", "dup", "esc"])
+                           "overlap", "suffix", "multi", "dup", "esc", "deep", "deep"])
         t = f"k{k}r{i}"
         if kind == "lit":
             rows.append((f"lit/{t}", f"lit_{t}"))
@@ -153,6 +154,8 @@ def gen_custom(rng, k):
         elif kind == "overlap":
             rows.append((f"type/{t}/list", f"call_{t}:list"))
             rows.append((f"call/{t}/\\1", f"call_{t}:(list|dict)"))
+            collide.append((f"call_{t}:list", f"type/{t}/list", [f"type/{t}"]))
+            collide.append((f"call_{t}:dict", f"call/{t}/dict", [f"call/{t}"]))
             labels += [f"call_{t}:list", f"call_{t}:dict", f"call_{t}:set"]
         elif kind == "suffix":
             rows.append((f"asg/{t}", f"asg_{t}\\b.*"))
@@ -168,6 +171,12 @@ def gen_custom(rng, k):
             rows.append((f"dupr/{t}/\\1", f"dup_{t}(.?)"))
             rows.append((f"dupr/{t}/\\1", f"dup_{t}(.?)"))
             labels += [f"dup_{t}", f"dup_{t}z"]
+        elif kind == "deep":
+            # a regular label translated into a taxon whose name (and whose prefixes) can also come as
+            # taxon-like labels (manual hints)
+            rows.append((f"deep/{t}/x/y", f"deep_{t}"))
+            labels += [f"deep_{t}", f"deep/{t}/x/y", f"deep/{t}/x", f"deep/{t}"]
+            collide.append((f"deep_{t}", f"deep/{t}/x/y", [f"deep/{t}/x", f"deep/{t}"]))
         elif kind == "esc":
             rows.append((f"esc/{t}", f"p\\.{t}\\(x\\)"))
             labels += [f"p.{t}(x)", f"pq{t}(x)"]
@@ -186,6 +195,7 @@ def gen_custom(rng, k):
         text += "\n-- EOF"
     elif r < 0.40 and rows:
         text = text.rstrip("\n") + " -- EOF trailing words on the last row\nignored\tlines\n"
+    gen_custom.collide = collide
     return text, list(dict.fromkeys(labels))
 
 
@@ -662,9 +672,24 @@ def run(ctx):
             path = ck.write(text)
             h = [rng.choice(pool) for _ in range(40)]
             ck.history_case("custom-tables", {"text": text}, path, h, f"c{ctx.seed}-{k}")
-            if k % 3 == 0:
-                lab = lambda: [[rng.choice(pool), [rng.randint(0, 4) for _ in range(rng.randint(0, 4))]]
-                               for _ in range(rng.randint(0, 8))]
+            collide = gen_custom.collide
+            if k % 3 == 0 or collide:
+                sp = lambda: [rng.randint(0, 4) for _ in range(rng.randint(0, 4))]
+
+                def lab():
+                    ls = [[rng.choice(pool), sp()] for _ in range(rng.randint(0, 8))]
+                    for (L, T, prefixes) in collide:
+                        if rng.random() < 0.7:
+                            # the translated label and a hint literally named like its translation (both
+                            # orders, shared spans or not), plus a prefix of that taxon
+                            shared = sp()
+                            pair = [[L, shared + sp()], [T, (shared if rng.random() < 0.5 else []) + sp()]]
+                            rng.shuffle(pair)
+                            extra = [[rng.choice(prefixes), shared + sp()]] if rng.random() < 0.7 else []
+                            for item in pair + extra:
+                                ls.insert(rng.randint(0, len(ls)), item)
+                    return ls
+
                 ck.to_taxa_case("custom-to_taxa", {"text": text}, path, [lab(), lab(), lab()], f"c{ctx.seed}-{k}")
             path.unlink()
         # -- several instances on the same (rewritten) path, alive together, interleaved calls
@@ -700,6 +725,7 @@ def run(ctx):
         "C09_exact: membership in the translation = 'some row applies' (literal: P = L; regex: oracle full match), nothing else",
         "C09_literal_only_itself: is_literal = only dots and characters regex.escape leaves alone; such a row applies iff L = P",
         "C09_bag: raw bag of a taxon = Σ multiplicity × occurrences, from any reachable state",
+        "C09_keys: the accumulator has exactly one key per taxon some label translates to (empty span lists included)",
         "C09_table_wf: a text passing tableOk is read without error into its distinct rows (tableOk is evaluated on the "
         "default table by the driver at run time: coverage.default_table_ok; not kernel-checked, too slow)",
     ]
